@@ -20,7 +20,7 @@ EXHAUSTIVE = True
 SHARDS = {"quick": 8, "thorough": 16}
 DEADLINE = {"quick": 50, "thorough": 420}
 REQUIRED = {"layout:calls": 2000, "layout:class:plain": 100, "layout:class:one-child": 500, "layout:repeat-compared": 500,
-            "layout:mirror-compared": 500, "inv:y": 1000, "inv:bounds": 1000, "layout:subtree-with-parent": 200, "layout:detached-subtree": 200, "layout:ids:same": 100, "layout:ids:eq-by-value": 100, "layout:ids:pool3": 100, "layout:ids:clone": 100, "inv:centre": 500, "inv:sep": 500}
+            "layout:mirror-compared": 500, "inv:y": 1000, "inv:bounds": 1000, "layout:subtree-with-parent": 200, "layout:default-units-after-explicit-ones": 200, "layout:detached-subtree": 200, "layout:ids:same": 100, "layout:ids:eq-by-value": 100, "layout:ids:pool3": 100, "layout:ids:clone": 100, "inv:centre": 500, "inv:sep": 500}
 EPS = 1e-9
 
 
@@ -180,8 +180,11 @@ def drive_shape(rec, s, units, fac=None, ids="fresh"):
         _SHARED["n"] = 0
 
     def TreeLayout():
+        # alternating blocks: in one, every third layout constructs a fresh object; in the other
+        # nothing is constructed at all (a constructor may reset state shared by all instances)
         _SHARED["n"] += 1
-        return _TL() if _SHARED["n"] % 3 == 0 else _SHARED["obj"]
+        quiet = (_SHARED["n"] // 300) % 2 == 1
+        return _TL() if (_SHARED["n"] % 3 == 0 and not quiet) else _SHARED["obj"]
 
     fac = fac or node_factory(ids)
     shp = W9.shape_str(s)
@@ -195,6 +198,25 @@ def drive_shape(rec, s, units, fac=None, ids="fresh"):
             continue
         first = coords(t)
         cls1 = shape_class(t)
+        if _SHARED["n"] % 4 == 1:
+            # the unit multipliers are per-call arguments with default 1: a call that omits them
+            # after a call that passed others, on the same object
+            try:
+                lay = _SHARED["obj"]
+                lay.layout(t, ux, uy)
+                lay.layout(t)
+                lay.layout(t, unit_y_multiplier=uy)
+                rec.arm("layout:default-units-after-explicit-ones")
+            except Exception:
+                pass
+        if _SHARED["n"] % 5 == 0:
+            # the measurement handed out is the caller's: scribbled on before the next layout
+            try:
+                m = TreeLayout().layout(t, ux, uy)
+                m.minX = m.maxX = m.minY = m.maxY = 12345
+                m.width = m.height = -1
+            except Exception:
+                pass
         # a sub-tree laid out on its own: the node handed to layout() is the root of the drawing,
         # whether or not it still has a parent (a sub-expression of a larger tree, or a subtree
         # that was replaced and kept its old parent pointer)
